@@ -133,4 +133,13 @@ PROPS = {
         "guards": ["message-granted-twice", "dequeues-overlapped"],
         "parts": [{"engine": "front", "test": "TestProp_C03_Concurrent", "quick": 800, "thorough": 60000, "shards": {"quick": 4}, "gomaxprocs": [16, 2, 4, 1], "shrinktime": "5s"}],
     },
+    "C14": {
+        "rule": "Admin HTTP tier: populations of 0-14 messages over 3 routes x states queued/leased/dead/canceled with tie timestamps, built with real store "
+                "operations, then 1-4 requests to the real Admin handlers (cancel/requeue/resume/dlq requeue/dlq delete by id list with unknown, blank, "
+                "padded, duplicate ids; the three by-filter forms with route/target/state/before/limit -1..1001/preview_only/unknown field); independent "
+                "selector; changed set, result states, reported counts, matched, preview; invalid requests must be refused without effect",
+        "assumptions": [SAMPLED],
+        "guards": ["applied", "preview", "status-400", "canceled-leased"],
+        "parts": [{"engine": "front", "test": "TestProp_C14_HTTP", "quick": 2000, "thorough": 150000}],
+    },
 }
